@@ -197,3 +197,22 @@ pub fn scenarios(tier: Tier) -> Vec<ScenarioDef> {
     }
     defs
 }
+
+/// C01 on the crossbeam Uni channel under contention: a setter-based send (which, by documented design, waits once its initial
+/// fullness test has passed) races plain sends that fill the channel while one consumer keeps taking events. Everything a send
+/// reported as accepted must arrive, exactly once (the consumer waits for it: an accepted event that never arrives ends in a stall).
+pub fn mc_contended_scenarios(prop: &'static str, tier: Tier) -> Vec<ScenarioDef> {
+    let mut defs = Vec::new();
+    for setter_ep in [Ep::SendWith, Ep::SendWithAsync] {
+        for (idx, (np, sends, prefill)) in [(2usize, 1usize, 1usize), (2, 2, 0), (3, 1, 1), (3, 1, 0)].into_iter().enumerate() {
+            if tier == Tier::Quick && np == 3 && prefill == 0 { continue }
+            let mut eps = vec![setter_ep];
+            for _ in 1..np { eps.push(Ep::Send) }
+            let spec = Spec { eps, sends, prefill, consumer: true, b: 2, handles: false };
+            let bound = match (tier, np) { (Tier::Quick, 2) => 3, (Tier::Quick, _) => 2, (Tier::Thorough, 2) => 4, (Tier::Thorough, _) => 3 };
+            defs.push(ScenarioDef { prop, family: format!("uni-MC/contended/{}", setter_ep.name()), rung: format!("P{np}-E{sends}-Q{prefill}"), rung_idx: idx, max_bound: bound,
+                make: Arc::new(move || make::<U<ChannelUniMoveCrossbeam<u32, 2, 1>>>(spec.clone())) });
+        }
+    }
+    defs
+}
